@@ -14,6 +14,8 @@ CONSTANTS
   none = none
   Latitude = {"PutBadRefused", "PutBadStored", "AuthzRefused", "AuthzAsAuthcid"}
   Scope = "small"
+  Profile = "dict"
+  Open = {}
 VIEW BaseView
 INVARIANT AtMostOneActive
 INVARIANT ActiveIsStored
